@@ -363,7 +363,11 @@ fn raw_case(seed: u64, i: u64) -> CaseOut {
     let raw = gen_raw_image(&mut rng);
     let mut input = Vec::new();
     for _ in 0..rng.below(4) {
-        input.push(if rng.chance(1, 5) { 0x80 + rng.below(0x80) as u8 } else { 0x20 + rng.below(0x5F) as u8 });
+        input.push(match rng.below(6) {
+            0 => 0x80 + rng.below(0x80) as u8,
+            1 => rng.below(0x21) as u8,
+            _ => 0x20 + rng.below(0x5F) as u8,
+        });
     }
     let mut env = match load_raw(&raw) {
         Ok(env) => env,
